@@ -24,6 +24,7 @@ pub mod product;
 pub mod queue;
 pub mod srvq;
 pub mod twoservers;
+pub mod extremes;
 pub mod c19;
 
 pub fn all() -> Vec<Box<dyn Check>> {
